@@ -397,7 +397,15 @@ func main() {
 		if err := format.Node(&buf, fset, f); err != nil {
 			fail("%s: %v", rel, err)
 		}
-		if err := os.WriteFile(path, buf.Bytes(), 0644); err != nil {
+		outb := buf.Bytes()
+		if r.usedX {
+			// the generic helpers need Go 1.18 language features in this file (the module says go 1.13)
+			if bytes.Contains(outb, []byte("//go:build ")) {
+				fail("%s: already carries a build constraint", rel)
+			}
+			outb = append([]byte("//go:build go1.18\n\n"), outb...)
+		}
+		if err := os.WriteFile(path, outb, 0644); err != nil {
 			fail("%v", err)
 		}
 	}
